@@ -41,7 +41,7 @@ typedef struct {
     int status;
     int ndev;
     abtmc_dev dev[ABTMC_MAXDEV];
-    int bound[4];
+    int bound[5];
     char key[96];
     char msg[1024];
     int confirmed;
@@ -79,14 +79,14 @@ static abtmc_xrec *XR[MAXW];
 static int opt_workers = 16, opt_P = 2, opt_T = 0, opt_E = 0, opt_cfg = -1;
 static long opt_horizon = 20000;
 static double opt_deadline = 0; /* seconds for the whole run, 0 = none */
-static int opt_wall = 20;       /* per execution */
+static int opt_wall = 60;       /* per execution: wall seconds; CPU limit is wall/4 */
 static int opt_trace, opt_iter = 1, opt_cachebits = 22, opt_quick;
 static long opt_maxexec = 0;
 static const char *opt_out, *opt_replay, *opt_tmp = "/verif/build/tmp",
                               *opt_replaydir;
 static double t_start;
 static int cur_cfg;
-static int cur_bound[4];
+static int cur_bound[5];
 
 static double now_s(void)
 {
@@ -145,7 +145,7 @@ static int run_exec(abtmc_xrec *xr, int cfg, const abtmc_dev *dev, int ndev,
         abtmc_g.trace = trace;
         abtmc_g.ndev = ndev;
         memcpy(abtmc_g.dev, dev, sizeof(abtmc_dev) * ndev);
-        for (int k = 0; k < 4; k++)
+        for (int k = 0; k < 5; k++)
             abtmc_g.bound[k] = bound[k];
         abtmc_g.horizon = horizon;
         abtmc_g.xr = xr;
@@ -153,6 +153,12 @@ static int run_exec(abtmc_xrec *xr, int cfg, const abtmc_dev *dev, int ndev,
         abtmc_g.cache_mask = CACHE_MASK;
         abtmc_g.use_cache = use_cache;
         alarm(wall);
+        {
+            struct rlimit rl;
+            rl.rlim_cur = wall / 4 > 5 ? wall / 4 : 5;
+            rl.rlim_max = rl.rlim_cur + 2;
+            setrlimit(RLIMIT_CPU, &rl);
+        }
         abtmc_rt_begin();
         D->scenario(cfg);
         abtmc_rt_end();
@@ -162,11 +168,14 @@ static int run_exec(abtmc_xrec *xr, int cfg, const abtmc_dev *dev, int ndev,
     while (waitpid(pid, &st, 0) < 0 && errno == EINTR)
         ;
     if (xr->status == ABTMC_ST_NONE) {
-        if (WIFSIGNALED(st) && WTERMSIG(st) == SIGALRM) {
+        if (WIFSIGNALED(st) && (WTERMSIG(st) == SIGALRM || WTERMSIG(st) == SIGXCPU ||
+                                WTERMSIG(st) == SIGKILL)) {
             xr->status = ABTMC_ST_TIMEOUT;
             snprintf(xr->key, sizeof(xr->key), "timeout");
             snprintf(xr->msg, sizeof(xr->msg),
-                     "execution exceeded %d s wall time", wall);
+                     "execution exceeded %d s wall time or %d s CPU time "
+                     "(signal %d)", wall, wall / 4 > 5 ? wall / 4 : 5,
+                     WTERMSIG(st));
         } else {
             xr->status = ABTMC_ST_CRASH;
             int sig = WIFSIGNALED(st) ? WTERMSIG(st) : 0;
@@ -254,8 +263,11 @@ static void worker(int wi)
     cpu_set_t cs;
     CPU_ZERO(&cs);
     long ncpu = sysconf(_SC_NPROCESSORS_ONLN);
-    CPU_SET((wi + (int)(getppid() % ncpu)) % ncpu, &cs);
+    int mycpu = (wi + (int)(getppid() % ncpu)) % ncpu;
+    CPU_SET(mycpu, &cs);
     sched_setaffinity(0, sizeof(cs), &cs);
+    double avg_exec = 0;
+    long nexec = 0;
     char path[256];
     snprintf(path, sizeof(path), "%s/err.%d.%d", opt_tmp, (int)getppid(), wi);
     int errfd = open(path, O_RDWR | O_CREAT | O_TRUNC, 0644);
@@ -280,8 +292,22 @@ static void worker(int wi)
             usleep(200);
             continue;
         }
+        double tx0 = now_s();
         int st = run_exec(xr, cur_cfg, e.dev, e.ndev, cur_bound, opt_horizon,
                           1, 0, 0, errfd, opt_wall);
+        {
+            /* all threads of an execution share this worker's CPU; if another
+             * process hogs it, hand-offs crawl: move to the next CPU */
+            double dt = now_s() - tx0;
+            nexec++;
+            avg_exec += (dt - avg_exec) / (double)(nexec < 50 ? nexec : 50);
+            if (dt > 0.03 && dt > 8 * avg_exec && ncpu > 1) {
+                mycpu = (mycpu + 1 + wi % 3) % ncpu;
+                CPU_ZERO(&cs);
+                CPU_SET(mycpu, &cs);
+                sched_setaffinity(0, sizeof(cs), &cs);
+            }
+        }
         int rerun = 0;
         if (st == ABTMC_ST_HORIZON || st == ABTMC_ST_TIMEOUT) {
             /* re-run alone, no cache, 10x horizon, 5x wall */
@@ -327,14 +353,20 @@ static void worker(int wi)
             xr->ncp = ncp0;
         }
         /* expansion */
-        int spent[4] = { 0, 0, 0, 0 };
+        int spent[5] = { 0, 0, 0, 0, 0 };
         int bad = 0;
         for (int i = 0; i < e.ndev; i++) {
             if (e.dev[i].idx >= xr->ncp) {
                 bad = 1;
                 break;
             }
-            spent[xr->cp[e.dev[i].idx].altkind[e.dev[i].alt]]++;
+            int k0 = xr->cp[e.dev[i].idx].altkind[e.dev[i].alt];
+            if (k0 == ABTMC_B_PT) {
+                spent[ABTMC_B_P]++;
+                spent[ABTMC_B_T]++;
+            } else {
+                spent[k0]++;
+            }
         }
         uint32_t first = e.ndev ? e.dev[e.ndev - 1].idx + 1 : 0;
         long pushed = 0;
@@ -386,9 +418,13 @@ static void worker(int wi)
                 S->cps++;
                 for (int a = 1; a < cp->nalt; a++) {
                     int k = cp->altkind[a];
-                    if (k == ABTMC_B_P)
+                    if (k == ABTMC_B_P || k == ABTMC_B_PT)
                         S->p_alts++;
-                    if (k != ABTMC_B_FREE && spent[k] >= cur_bound[k])
+                    if (k == ABTMC_B_PT) {
+                        if (spent[ABTMC_B_P] >= cur_bound[ABTMC_B_P] ||
+                            spent[ABTMC_B_T] >= cur_bound[ABTMC_B_T])
+                            continue;
+                    } else if (k != ABTMC_B_FREE && spent[k] >= cur_bound[k])
                         continue;
                     if (e.ndev + 1 > ABTMC_MAXDEV) {
                         S->devlist_overflow++;
@@ -636,7 +672,7 @@ int abtmc_main(int argc, char **argv, const abtmc_driver *d)
     t_start = now_s();
 
     if (opt_replay || run_cfg >= 0) {
-        int cfg = run_cfg, bound[4] = { 0, 0, 0, 0 }, ndev = 0;
+        int cfg = run_cfg, bound[5] = { 0, 0, 0, 0, 0 }, ndev = 0;
         long horizon = opt_horizon * 10;
         static abtmc_dev dev[ABTMC_MAXDEV];
         if (opt_replay &&
